@@ -221,7 +221,10 @@ func (exp *SplitExp) InnerMapSource() MapCallSource {
 			return &NullExp{valExp: exp.valExp}
 		}
 		var inner MapCallSource
-		for _, ev := range e.Value {
+		// Take the elements in sorted key order, so that the element whose
+		// source is returned is repeatable.
+		for _, k := range e.sortedKeys() {
+			ev := e.Value[k]
 			if is, ok := ev.(MapCallSource); !ok || is == nil {
 				return nil
 			} else if inner == nil {
